@@ -89,7 +89,7 @@ func genInput(t *rapid.T, streamKind bool) Input {
 		switch rapid.IntRange(0, 7).Draw(t, "ending") {
 		case 0:
 			in.ErrAt = rapid.IntRange(0, n).Draw(t, "errat")
-			in.ErrKind = rapid.IntRange(0, 2).Draw(t, "errkind")
+			in.ErrKind = rapid.IntRange(0, 3).Draw(t, "errkind")
 		case 1:
 			in.Blocks = true
 		case 2, 3:
@@ -349,6 +349,8 @@ func runStreamMerge(p Plan) (vk.Outcome, error) {
 				E[i] = fmt.Errorf("input %d: upstream call failed: %w", i, context.Canceled)
 			case 2:
 				E[i] = fmt.Errorf("input %d: upstream call failed: %w", i, context.DeadlineExceeded)
+			case 3: // ... or the end marker: a failure all the same, not the end of the input
+				E[i] = fmt.Errorf("input %d: truncated record: %w", i, stream.End)
 			}
 			if in.ErrAt >= 0 {
 				r.FinalAt, r.Final = in.ErrAt, E[i]
